@@ -313,6 +313,9 @@ func bloomReload(c *Ctx, f *gostatix.BloomFilter, cfg bloomCfg) *gostatix.BloomF
 		}
 	})
 	c.branch("reload-" + how)
+	if cfg.redis && !c.checkNoTTL([]string{"C01", "C10"}, "after "+how+" into a Redis-backed Bloom filter") {
+		return nil
+	}
 	if res.panicked || lerr != nil {
 		c.fail([]string{"C10", "C11"}, "bloom-reload-fails", fmt.Sprintf("%s of the filter's own image into a used handle failed: %v %v", how, res.panicVal, lerr), cfg.String())
 		return nil
